@@ -213,14 +213,17 @@ def builtin_replay(name, history, fresh):
 
     vs = []
     out = None
+    # the stateless reference is created (and evaluated) while `opt` exists but before `opt` evaluates: objects of other
+    # optimisers must not influence this one
+    want_last = None
+    if history:
+        o2 = Optimizer(builtin_scheme(name), verbose=False, raise_exception=True)
+        o2._free_parameter_labels = labels
+        want_last = ev(o2, history[-1])
     for i, k in enumerate(history):
         out = ev(opt, k)
         if i == len(history) - 1:
-            if k not in fresh:
-                o2 = Optimizer(builtin_scheme(name), verbose=False, raise_exception=True)
-                o2._free_parameter_labels = labels
-                fresh[k] = ev(o2, k)
-            want = fresh[k]
+            want = want_last
             if isinstance(want, str) or isinstance(out, str):
                 if want != out if isinstance(want, str) and isinstance(out, str) else True:
                     vs.append(V("evaluation-raises-depending-on-history", vector=k, got=str(out)[:40], want=str(want)[:40], scheme=name))
